@@ -203,7 +203,7 @@ def model(script: str, max_retry: int, timeout: float) -> dict[str, Any]:
 
 
 def run_real(script: str, client_retry: int, client_timeout: float, cfg_retry: int | None, cfg_timeout: float | None,
-             max_virtual: float = 5e4) -> dict[str, Any]:
+             max_virtual: float = 5e4, raw: bool = False) -> dict[str, Any]:
     from gallia.services.uds.core import service
     from gallia.services.uds.core.client import UDSClient, UDSRequestConfig
 
@@ -217,6 +217,8 @@ def run_real(script: str, client_retry: int, client_timeout: float, cfg_retry: i
         cfg = None
         if cfg_retry is not None or cfg_timeout is not None:
             cfg = UDSRequestConfig(timeout=cfg_timeout, max_retry=cfg_retry)
+        if raw:  # the same bytes through send_raw(): the reply rules are the same, the request object is an opaque RawRequest
+            return await cl.send_raw(bytes([0x22]) + REQ_DID.to_bytes(2, "big"), cfg)
         return await cl.request(service.ReadDataByIdentifierRequest(REQ_DID), cfg)
 
     status, val, dur = run_virtual(go, max_virtual=max_virtual)
@@ -235,9 +237,9 @@ def check(case: dict[str, Any]) -> list[tuple[str, str]]:
     eff_timeout = cft if cft is not None else ct
     m = model(script, eff_retry, eff_timeout)
     lim = 3 * m["bound"] + 3 * max(eff_timeout, 20.0) * (eff_retry + 1) + 10
-    r = run_real(script, cr, ct, cfr, cft, max_virtual=2 * lim + 100)
+    r = run_real(script, cr, ct, cfr, cft, max_virtual=2 * lim + 100, raw=bool(case.get("raw")))
     out: list[tuple[str, str]] = []
-    desc = f"script={_sd(case)} max_retry={cr}/{cfr} timeout={ct}/{cft}"
+    desc = f"script={_sd(case)} max_retry={cr}/{cfr} timeout={ct}/{cft}" + (" via send_raw" if case.get("raw") else "")
     tx = sum(1 for k, _ in r["trace"] if k == "write")
     # ---- boundedness
     if r["status"] in ("stalled", "overrun"):
@@ -360,6 +362,8 @@ def _expand_long(spec: list[Any]) -> str:
         return "P" * 3000
     if kind == "silence":
         return "S"
+    if kind == "pend-quiet-final":
+        return "P" + "T" * spec[1] + spec[2]
     raise AssertionError(kind)
 
 
@@ -368,7 +372,7 @@ def case_s(draw) -> dict[str, Any]:
     script = draw(st.text(alphabet=ALPHABET, min_size=0, max_size=12))
     return {"script": script, "client_retry": draw(st.integers(0, 3)), "client_timeout": draw(st.sampled_from([0.1, 2.0, 5.0])),
             "cfg_retry": draw(st.one_of(st.none(), st.integers(0, 3))),
-            "cfg_timeout": draw(st.one_of(st.none(), st.sampled_from([0.1, 1.0, 25.0])))}
+            "cfg_timeout": draw(st.one_of(st.none(), st.sampled_from([0.1, 1.0, 25.0]))), "raw": draw(st.sampled_from([False, False, True]))}
 
 
 def nontrivial(case: dict[str, Any]) -> bool:
@@ -390,7 +394,7 @@ def run_shard(spec: dict[str, Any], seed: int) -> Collector:
 
     def body(case: dict[str, Any]) -> None:
         res = check(case)
-        col.case((_sd(case), case["client_retry"], case.get("cfg_retry"), case["client_timeout"], case.get("cfg_timeout")),
+        col.case((_sd(case), case["client_retry"], case.get("cfg_retry"), case["client_timeout"], case.get("cfg_timeout"), bool(case.get("raw"))),
                  nontrivial(case), cls=("long" if case.get("long") else f"len{min(len(case['script']), 5)}"
                                         + ("+override" if case.get("cfg_retry") is not None or case.get("cfg_timeout") is not None else "")),
                  sample={**case, "reference": {k: (v.hex() if isinstance(v, bytes) else v) for k, v in
@@ -410,6 +414,8 @@ def run_shard(spec: dict[str, Any], seed: int) -> Collector:
         for s in scripts:
             for mr in range(4):
                 body({"script": s, "client_retry": mr, "client_timeout": 2.0, "cfg_retry": None, "cfg_timeout": None})
+            if "M" in s or "F" in s:
+                body({"script": s, "client_retry": 1, "client_timeout": 2.0, "cfg_retry": None, "cfg_timeout": None, "raw": True})
         col.exhaustive_parts.append(f"all scripts of length <= {max(spec['maxlen'], 0)} starting with '{first}' x max_retry 0..3")
         return col
     if w == "gen":
@@ -424,6 +430,15 @@ def run_shard(spec: dict[str, Any], seed: int) -> Collector:
             for to in (0.1, 2.0, 20.0, 60.0):
                 body({"script": "", "long": ["silence"], "client_retry": mr, "client_timeout": to, "cfg_retry": None, "cfg_timeout": None})
                 body({"script": "", "long": ["silence"], "client_retry": mr, "client_timeout": 2.0, "cfg_retry": None, "cfg_timeout": to})
+        # a final reply after k silent polls behind a ResponsePending, around the silence limit of the timeout that applies to the
+        # request (the per-request override where there is one)
+        for mr in (0, 1):
+            for ct, cft in ((2.0, None), (30.0, None), (1.0, 30.0), (30.0, 1.0), (25.0, 40.0)):
+                eff = cft if cft is not None else ct
+                lim = int(max(eff, 20.0) / 0.5)
+                for k in sorted({1, 39, 40, 41, lim - 1, lim, lim + 1, 45, 59, 60}):
+                    for fin in "FN":
+                        body({"script": "", "long": ["pend-quiet-final", k, fin], "client_retry": mr, "client_timeout": ct, "cfg_retry": None, "cfg_timeout": cft})
         return col
     raise AssertionError(w)
 
